@@ -6,7 +6,6 @@ import (
 	"fmt"
 	"math"
 	"sort"
-	"strings"
 	"sync"
 	"unsafe"
 
@@ -1010,6 +1009,7 @@ func (r *Runtime) typedArrayProto_set(call FunctionCall) Value {
 		if src, ok := srcObj.self.(*typedArrayObject); ok {
 			src.viewedArrayBuf.ensureNotDetached(true)
 			srcLen := src.length
+			checkTypedArrayMixBigInt(src, ta)
 			if x := srcLen + targetOffset; x < 0 || x > targetLen {
 				panic(r.newError(r.getRangeError(), "Source is too large"))
 			}
@@ -1017,7 +1017,6 @@ func (r *Runtime) typedArrayProto_set(call FunctionCall) Value {
 				copy(ta.viewedArrayBuf.data[(ta.offset+targetOffset)*ta.elemSize:],
 					src.viewedArrayBuf.data[src.offset*src.elemSize:(src.offset+srcLen)*src.elemSize])
 			} else {
-				checkTypedArrayMixBigInt(src.defaultCtor, ta.defaultCtor)
 				if srcLen == 0 {
 					// nothing to copy; the element addresses taken below may not exist
 					return _undefined
@@ -1385,7 +1384,11 @@ func (r *Runtime) allocateTypedArray(newTarget *Object, length int, taCtor typed
 }
 
 func (r *Runtime) typedArraySpeciesCreate(ta *typedArrayObject, args []Value) *typedArrayObject {
-	return r.typedArrayCreate(r.speciesConstructorObj(ta.val, ta.defaultCtor), args...)
+	res := r.typedArrayCreate(r.speciesConstructorObj(ta.val, ta.defaultCtor), args...)
+	if res.isBigIntType() != ta.isBigIntType() {
+		panic(r.NewTypeError("TypedArray species constructor returned an array of a different content type"))
+	}
+	return res
 }
 
 func (r *Runtime) typedArrayCreate(ctor *Object, args ...Value) *typedArrayObject {
@@ -1484,12 +1487,18 @@ func (r *Runtime) _newTypedArrayFromArrayBuffer(ab *arrayBufferObject, args []Va
 	return ta.val
 }
 
-func checkTypedArrayMixBigInt(src, dst *Object) {
-	srcType := src.self.getStr("name", nil).String()
-	if strings.HasPrefix(srcType, "Big") {
-		if !strings.HasPrefix(dst.self.getStr("name", nil).String(), "Big") {
-			panic(errMixBigIntType)
-		}
+func (a *typedArrayObject) isBigIntType() bool {
+	switch a.typedArray.(type) {
+	case *bigInt64Array, *bigUint64Array:
+		return true
+	}
+	return false
+}
+
+// checkTypedArrayMixBigInt throws a TypeError if the [[ContentType]] of the two arrays differs (in either direction).
+func checkTypedArrayMixBigInt(src, dst *typedArrayObject) {
+	if src.isBigIntType() != dst.isBigIntType() {
+		panic(errMixBigIntType)
 	}
 }
 
@@ -1505,7 +1514,7 @@ func (r *Runtime) _newTypedArrayFromTypedArray(src *typedArrayObject, newTarget 
 		dst.length = src.length
 		return dst.val
 	} else {
-		checkTypedArrayMixBigInt(src.defaultCtor, newTarget)
+		checkTypedArrayMixBigInt(src, dst)
 	}
 	dst.length = l
 	for i := 0; i < l; i++ {
